@@ -42,15 +42,19 @@ def case_strategy(draw):
     edges = gen.binning_edges_reference(cfg, cfg["cosmology"])
     many = draw(st.integers(0, 9)) == 0  # occasionally 10-12 patches (two-digit patch ids), few objects each
     size = dict(min_patches=10, max_patches=12, max_per_patch=2) if many else {}
+    huge = draw(st.integers(0, 39)) == 39  # rarely hundreds of patches (three-digit ids, > 8-bit counts)
     if mode == "auto":
-        scene = draw(gen.scene_case(theta_max, edges, 2, need_z=(0, 1), **size))
+        ncat, need = 2, (0, 1)
         opts = {"count_rr": draw(st.booleans())}
     else:
         rands = draw(st.sampled_from(["unk", "ref", "both"]))
         ncat = 2 + (2 if rands == "both" else 1)
         need = (0,) if rands == "unk" else (0, 2)
-        scene = draw(gen.scene_case(theta_max, edges, ncat, need_z=need, **size))
         opts = {"rands": rands}
+    if huge:
+        scene = draw(gen.lattice_scene(draw(st.sampled_from([128, 129, 256, 257, 300])), extra=10, ncat=ncat, edges=edges, need_z=need, theta_max=theta_max))
+    else:
+        scene = draw(gen.scene_case(theta_max, edges, ncat, need_z=need, **size))
     # occasionally the first catalog is created from a patch-index column and the others take
     # their centres from that catalog (centres derived by the library instead of given)
     scene["derived"] = draw(st.integers(0, 5)) == 0
@@ -234,7 +238,7 @@ def compare(case, cfg, cfs, ck: Checker):
     ck.nontrivial = nontrivial
     if case["scene"].get("derived"):
         ck.cls("centres-derived-from-first-catalog")
-    ck.cls(f"mode:{case['mode']}", f"unit:{c['unit']}", f"method:{c['method']}", f"closed:{closed}", f"patches:{npatch if npatch < 10 else '>=10'}", f"scales:{ns}")
+    ck.cls(f"mode:{case['mode']}", f"unit:{c['unit']}", f"method:{c['method']}", f"closed:{closed}", f"patches:{npatch if npatch < 10 else ('>=10' if npatch < 100 else '>=128')}", f"scales:{ns}")
     if c["rweight"] is not None:
         ck.cls("rweight", "res<8" if c["resolution"] + 1 + 2 * ns < 8 else "res>=8")
     elif len(set(c["rmin"]) | set(c["rmax"])) >= 8:
